@@ -31,6 +31,9 @@ type MatSpec struct {
 	// sums then depend on the order of additions in the last bits, and scores are compared
 	// with the tolerance tol() instead of exactly.
 	Div int `json:"div,omitempty"`
+	// OpenDiv divides the gap-open score alone (0 = 1; 2 or 4, so the quotient is exact): whole
+	// pair and gap scores with a fractional gap-open such as -0.5.
+	OpenDiv int `json:"open_div,omitempty"`
 	// InfGaps sets every per-character gap score to -Inf ("gaps are forbidden").
 	InfGaps bool `json:"inf_gaps,omitempty"`
 }
@@ -107,7 +110,14 @@ func (s MatSpec) build() (m align.SubstitutionMatrix, r ref.Matrix, err error) {
 		k = [2]byte{255, s.Letters[i]}
 		m[k], r[k] = sc*float64(s.InsGap[i]), sc*float64(s.InsGap[i])
 	}
-	m[[2]byte{255, 255}], r[[2]byte{255, 255}] = sc*float64(s.Open), sc*float64(s.Open)
+	open := sc * float64(s.Open)
+	if s.OpenDiv > 1 {
+		if s.OpenDiv != 2 && s.OpenDiv != 4 {
+			return nil, nil, fmt.Errorf("malformed matrix spec")
+		}
+		open /= float64(s.OpenDiv)
+	}
+	m[[2]byte{255, 255}], r[[2]byte{255, 255}] = open, open
 	return m, r, nil
 }
 
@@ -219,6 +229,9 @@ func genMatSpec(t *rapid.T, o matOpts) MatSpec {
 		if s.Open == 0 {
 			s.Open = -1
 		}
+	}
+	if s.Open != 0 {
+		s.OpenDiv = rapid.SampledFrom([]int{0, 0, 0, 0, 0, 2, 4}).Draw(t, "openDiv")
 	}
 	return s
 }
@@ -451,6 +464,9 @@ func matDesc(s MatSpec) string {
 	if s.Div > 1 {
 		d += fmt.Sprintf(" (all scores /%d)", s.Div)
 	}
+	if s.OpenDiv > 1 {
+		d += fmt.Sprintf(" (open /%d)", s.OpenDiv)
+	}
 	if s.InfGaps {
 		d += " (all per-character gap scores -Inf)"
 	}
@@ -487,7 +503,13 @@ func realAlignCases(opens []int, sizes []int, emit func(AlignCase) bool) bool {
 		for _, pair := range [][2]string{{"AAAAAAAAAC", "CAAAAAAAAA"}, {"CAGCAGCAGCACACATAT", "CAGCAGCACACACATATAT"}, {"TTTTTTTT", "TTTTT"}, {"ACACACACGT", "ACACGT"},
 			{"GGGGCAGCAGTTTT", "GGGGCAGTTTT"}, {"ATATATATCGCGCG", "ATATCGCGCGCG"}} {
 			for _, local := range []bool{false, true} {
-				for _, m := range []MatSpec{dna(1, -4, -1, open), dna(1, -1, -1, open), dna(2, -3, -2, open)} {
+				ms := []MatSpec{dna(1, -4, -1, open), dna(1, -1, -1, open), dna(2, -3, -2, open)}
+				if open != 0 {
+					frac := dna(2, -3, -1, open) // whole scores, gap-open a quarter of open (-0.5, -1.5)
+					frac.OpenDiv = 4
+					ms = append(ms, frac)
+				}
+				for _, m := range ms {
 					if !emit(AlignCase{A: gen.B(pair[0]), B: gen.B(pair[1]), M: m, Local: local}) || !emit(AlignCase{A: gen.B(pair[1]), B: gen.B(pair[0]), M: m, Local: local}) {
 						return false
 					}
@@ -501,11 +523,19 @@ func realAlignCases(opens []int, sizes []int, emit func(AlignCase) bool) bool {
 			dec.Div = 10
 			dec3 := dna(7, -5, -2, open)
 			dec3.Div = 3
+			// whole pair and gap scores with a fractional gap-open (-0.5, -0.25 per unit)
+			half := dna(2, -3, -1, open)
+			half.OpenDiv = 4
+			quarter := dna(1, -2, -1, open)
+			quarter.OpenDiv = 4
 			short := allSeqs([]byte("AC"), 4)
 			for _, a := range short {
 				for _, b := range short {
 					for _, local := range []bool{false, true} {
 						if !emit(AlignCase{A: a, B: b, M: dec, Local: local}) || (len(a)+len(b))%2 == 0 && !emit(AlignCase{A: a, B: b, M: dec3, Local: local}) {
+							return false
+						}
+						if !emit(AlignCase{A: a, B: b, M: half, Local: local}) || (len(a)+len(b))%2 == 1 && !emit(AlignCase{A: a, B: b, M: quarter, Local: local}) {
 							return false
 						}
 					}
